@@ -24,6 +24,11 @@ CLAIMED = {
   level_note="Trusted: the dict model. Self-bonds and wrong-length masks are outside the generated domain. Two genuine defects in Cython source (cannot be rebuilt here) are listed in known_findings.json and reported as KNOWN-FINDING; any other disagreement is a VIOLATION.",
   technique="deterministic simulation (seeded histories, out-of-range-index fault injection with fork-probe crash containment, reference model, ddmin replay)",
   design_ref="4.3, 3.3"),
+ "C01": dict(
+  level_text="Seeded operation histories over a register file of live Atom / AtomArray / AtomArrayStack objects refined after every step, for every register, against a plain list-of-atoms model (annotation values per atom, coordinates per model, per-model boxes, bonds as position pairs): indexing of every kind incl. negative and two-dimensional stack indices, concatenate/+, stack, repeat, from_template, array(), atom/model deletion, element assignment, annotation edits, coord/box/bonds assignment, copy() and in-place writes through one of two holders (a copy must never change), rejected operations. Structural coherence (lengths/depths of annotations, coord, box, bonds) and biotite's own == against a container rebuilt from the model are checked too. Sampling, not proof.",
+  level_note="Trusted: the list-of-atoms model (numpy defines one-axis index validity). String annotation values stay within dtype widths; duplicate index arrays only without bonds; objects derived by anything but copy() may share buffers (alias groups are re-synchronised, not checked).",
+  technique="deterministic simulation (seeded histories over a register file with a second holder, rejected-operation faults, reference model, ddmin replay)",
+  design_ref="4.2"),
 }
 
 NA = {
